@@ -452,8 +452,8 @@ def oracle(p):
     # pyramid with a given finest-level spacing (regression check of the repaired else-branch): level 0 is the ramp on its grid
     # inside the hull of the original samples
     for D in (2, 3):
-        for flag in (True, False):
-            for sp in (0.5, 1.5):
+        for flag, sp, xac in [(f_, s_, x_) for f_ in (True, False) for s_ in (0.5, 1.5, None) for x_ in (None, True, False)
+                              if not (s_ is None and (x_ is None or x_ == f_))]:
                 try:
                     gd = dict(size=[8, 6, 5][:D], spacing=[1.0, 1.0, 1.0][:D], center=[1.0, -2.0, 0.5][:D], direction=rand_dir(rng, D), align_corners=flag)
                     g = mk(gd)
@@ -461,17 +461,21 @@ def oracle(p):
                     w = g.index_to_world(g.coords(normalize=False).double(), decimals=None).double()
                     dat = ((w * torch.tensor(A, dtype=torch.float64)).sum(-1) + 1.0).unsqueeze(0).unsqueeze(0)
                     b = ImageBatch(dat, g)
-                    lv = b.pyramid(2, spacing=sp, sigma=0)[0]
+                    kw_ = {} if xac is None else {"align_corners": xac}
+                    lv = b.pyramid(2, spacing=sp, sigma=0, **kw_)[0]
                     g_new = lv.grid(0)
                     src = g.world_to_index(g_new.index_to_world(g_new.coords(normalize=False).double(), decimals=None), decimals=None).double()
                     n_old = torch.tensor([float(v) for v in g.size()], dtype=torch.float64)
                     ind = ((src >= -1e-6) & (src <= n_old - 1 + 1e-6)).all(-1).double()
                     m2 = ImageBatch(ind.unsqueeze(0).unsqueeze(0), lv.grids())
                     counts["probes"] += 1
-                    check_stage(fail, "ImageBatch.pyramid:spacing", lv, m2, A, 1.0,
-                                dict(grids=[gd], ops=[{"op": "pyr", "levels": 2, "spacing": sp, "level": 0}], A=A, b=1.0), 1e-4 * (float(dat.abs().max()) + 1))
+                    nm_ = "ImageBatch.pyramid:spacing" if xac is None or xac == flag else "ImageBatch.pyramid:explicit-align_corners"
+                    check_stage(fail, nm_, lv, m2, A, 1.0,
+                                dict(grids=[gd], ops=[{"op": "pyr", "levels": 2, "spacing": sp, "level": 0, "align_corners": xac}], A=A, b=1.0),
+                                1e-4 * (float(dat.abs().max()) + 1))
                 except Exception as e:  # noqa
-                    fail(f"C04:ImageBatch.pyramid:spacing:raises:{type(e).__name__}", f"raises {type(e).__name__}: {str(e)[:140]}", flag=flag, spacing=sp, D=D)
+                    fail(f"C04:ImageBatch.pyramid:spacing:raises:{type(e).__name__}", f"raises {type(e).__name__}: {str(e)[:140]}", flag=flag, spacing=sp,
+                         align_corners=xac, D=D)
     # flow fields whose vectors are expressed in grid / cube units: after an operation that changes the grid the SAME world
     # displacement must be described (a constant world displacement stays that constant)
     for D in (2, 3):
